@@ -194,6 +194,8 @@ func brief(v interface{}) string {
 type World struct {
 	// Huge: the first base frame has a thousand rows or more.
 	Huge    bool
+	// Giant: the first base frame has more than 8192 rows.
+	Giant bool
 	Specs   []*gen.FrameSpec
 	Members []*Member
 	inputs  []inputCopy
@@ -229,6 +231,8 @@ type Bounds struct {
 	MaxRows, MaxCols, MaxMembers int
 	// HugeOdds: one base frame in HugeOdds has 1024..1300 rows (0 = never).
 	HugeOdds uint64
+	// GiantOdds: one world in GiantOdds starts from a frame of 8193..33500 rows (0 = never).
+	GiantOdds uint64
 }
 
 // NewWorld draws the base frames (the slices handed to New stay owned by the
@@ -254,7 +258,13 @@ func NewWorld(t *rapid.T, b Bounds) *World {
 			w.Huge = true
 		}
 		fb.SmallDomain = rapid.IntRange(0, 5).Draw(t, "smalldomain") != 0
-		fs := gen.DrawFrame(t, fb)
+		var fs *gen.FrameSpec
+		if i == 0 && b.GiantOdds > 0 && gen.Rare(t, "giantbase", b.GiantOdds) {
+			fs = gen.DrawGiantFrame(t)
+			w.Huge, w.Giant = true, true
+		} else {
+			fs = gen.DrawFrame(t, fb)
+		}
 		w.Specs = append(w.Specs, fs)
 		ic := inputCopy{spec: fs, ints: map[string][]int{}, floats: map[string][]uint64{}, bools: map[string][]bool{}, strs: map[string][]string{}}
 		for _, c := range fs.Cols {
@@ -286,8 +296,10 @@ func (w *World) InputsChanged() string {
 		for _, c := range ic.spec.Cols {
 			switch c.Type {
 			case "int":
-				if fmt.Sprint(c.Ints) != fmt.Sprint(ic.ints[c.Name]) {
-					return fmt.Sprintf("input slice of column %q was %v, is %v", c.Name, ic.ints[c.Name], c.Ints)
+				for i, x := range c.Ints {
+					if x != ic.ints[c.Name][i] {
+						return fmt.Sprintf("input slice of column %q was %d at %d, is %d", c.Name, ic.ints[c.Name][i], i, x)
+					}
 				}
 			case "float":
 				for i, f := range c.Floats {
@@ -296,8 +308,10 @@ func (w *World) InputsChanged() string {
 					}
 				}
 			case "bool":
-				if fmt.Sprint(c.Bools) != fmt.Sprint(ic.bools[c.Name]) {
-					return fmt.Sprintf("input slice of column %q changed", c.Name)
+				for i, x := range c.Bools {
+					if x != ic.bools[c.Name][i] {
+						return fmt.Sprintf("input slice of column %q changed at %d", c.Name, i)
+					}
 				}
 			default:
 				for i, p := range c.Strs {
@@ -424,7 +438,7 @@ func (m *Member) FreshCopy() (*Member, bool) {
 // shared). With cold set the evaluation context is left to be created lazily
 // by the goroutine itself.
 func (w *World) Fork() *World {
-	f := &World{Specs: w.Specs, Huge: w.Huge, Members: append([]*Member{}, w.Members...), clauses: map[string]qframe.FilterClause{}}
+	f := &World{Specs: w.Specs, Huge: w.Huge, Giant: w.Giant, Members: append([]*Member{}, w.Members...), clauses: map[string]qframe.FilterClause{}}
 	for k, v := range w.clauses {
 		f.clauses[k] = v
 	}
